@@ -249,6 +249,23 @@ add('C14',
     "whose float64 conductivity over/underflows are counted as must-reject "
     "(interpretation recorded in ASSUMPTIONS).")
 
+add('C06',
+    "Hypothesis-drawn source/frequency per family x deterministic grid-size "
+    "ladder; metamorphic oracle in the grid size (factor(n) vs factor(16)) "
+    "plus absolute caps measured on the pinned tree",
+    "Exploration (threshold test): stand-alone multigrid on the documented "
+    "showcase (uniform grids over a 1 km cube, homogeneous isotropic or "
+    "triaxial 1:2:3 medium, frequency and Laplace domain, F/V/W cycles, "
+    "nu_pre/nu_post in 1..3) with a generated point source and frequency, "
+    "solved at 8, 16, 32 (share: 64; thorough: 128 and non-cubic 2^a x "
+    "3*2^b x 5*2^c shapes) cells per direction: all sizes must converge, "
+    "rho(n) <= 1.5 rho(16) + 0.02, rho(n) <= cap(medium, nu), cycles(n) <= "
+    "cycles(16) + 3.",
+    "Trusted: caps = 1.5 x the largest average reduction factor measured "
+    "over 216 family/source draws on the pinned tree (table in the check). "
+    "It cannot establish O(N) and says nothing about stretched or "
+    "heterogeneous models (not claimed by the property).")
+
 NOT_BUILT = "check not built yet (see DESIGN.md section 3 for the plan)"
 
 
